@@ -386,6 +386,4 @@ def health(tier, evaluations, nontrivial, classes):
 
 def self_test():
     assert add2(2, 3) == 5 and grpsum({"u": 1, "v": 2}) == 3
-    p = mk(["ab_c", "a_d"])
-    cfg = p.parse_args(["--a=4"])
-    assert cfg.c == 6 and cfg.d == 4
+    assert target_applicable({"links": ["a_sn"], "cls": "LSub3", "ls": []}, "s.n") is False and target_applicable({"links": ["a_d"], "cls": None, "ls": []}, "d")
